@@ -211,12 +211,25 @@ def constraints_for(rng, name: str, gens: list[str], args: list[str]) -> tuple[l
 # property observation
 # ------------------------------------------------------------------------------------------------
 
-SIGNATURES = {
-    # verdict 1 reached through a repair that assigns a value to a generator-defined symbol / an enclosing one
-    ("eq_on_generated", 1): "equality-repair-assigns-generated-field",
-    ("eq_on_enclosing", 1): "equality-repair-assigns-generated-field",
-    ("eq_two_generated", 1): "equality-repair-assigns-generated-field",
-}
+EQ_REPAIR = "equality-repair-assigns-generated-field"
+
+
+def classify(verdict: int, node: Optional[list], assigned: set) -> Optional[str]:
+    """the open finding, narrowly: the node's text is one that equality repair (EqualComparisonSuggestion: the
+    wanted value parsed under the target symbol) installed on this generator-defined symbol in this run"""
+    if verdict == 1 and node is not None and node[0] == "n":
+        if (node[1], tuple(_gunits(node))) in assigned:
+            return EQ_REPAIR
+    return None
+
+
+def _gunits(tj: list) -> list[int]:
+    if tj[0] == "l":
+        return list(tj[1])
+    out: list[int] = []
+    for k in tj[3]:
+        out.extend(_gunits(k))
+    return out
 
 
 def generator_nodes(grammar, t, out: list) -> list:
@@ -269,12 +282,10 @@ class Ctx:
             if not a["ok"]:
                 path, verdict = a["bad"]
                 kind = m.get("kind", "?")
-                cls = SIGNATURES.get((kind, verdict))
-                if cls is None and verdict == 2:
-                    cls = "regenerated-output-writable" if m.get("regen_possible") else None
+                node = _walk(m["tree"], path)
+                cls = classify(verdict, node, m.get("assigned") or set())
                 what = {1: "its text is not a value the generator returned for the values of its recorded arguments",
                         2: "its children (the generated text) are writable", 3: "an argument of its generator is missing"}[verdict]
-                node = _walk(m["tree"], path)
                 sig = f"C16/{cls}" if cls else f"C16/verdict{verdict}:{origin}:{kind}"
                 self.run.count("invalid:" + (cls or f"verdict{verdict}:{kind}"))
                 self.run.report(
@@ -283,7 +294,9 @@ class Ctx:
                     f"generator-defined node {node[1] if node else '?'} = {_gtext(node) if node else '?'!r} at {path}: {what}"
                     + (f" [{cls}]" if cls else ""),
                     {"kind": "tree", "origin": origin, "spec": m.get("spec"), "settings": m.get("settings"),
-                     "tree": m["tree"], "bad": a["bad"], "log": q["log"][:200], "spec_json": q["spec"], "class": cls})
+                     "tree": m["tree"], "bad": a["bad"], "log": q["log"][:200], "spec_json": q["spec"], "class": cls,
+                     "assigned_by_equality_repair": sorted([s_, "".join(chr(c) for c in t_)] for s_, t_ in
+                                                           (m.get("assigned") or set()))[:50]})
         self.q.clear()
 
 
@@ -328,6 +341,28 @@ def run_evolution(spec: str, seed: int, settings: dict, generations: int, want: 
     sols, err = [], None
     Evaluator.evaluate_individual = evaluate_individual
     glog = GenLog()
+    # call-site evidence for the open finding: texts that EqualComparisonSuggestion (parse of the wanted value under
+    # the target symbol / copy of a same-symbol tree) puts onto generator-defined symbols
+    from fandango.constraints.comparison import EqualComparisonSuggestion
+    o_repl = EqualComparisonSuggestion.get_replacements
+    glog.assigned = set()
+
+    def get_replacements(self, individual, grammar):   # (keyword arguments at the call sites)
+        grammar_ = grammar
+        out = o_repl(self, individual, grammar_)
+        try:
+            for _tgt, new in out:
+                stack = [new]
+                while stack:
+                    n = stack.pop()
+                    if n.symbol.is_non_terminal and n.symbol in grammar_.generators:
+                        glog.assigned.add((n.symbol.name(), tuple(text_units(n))))
+                    stack.extend(n.children)
+        except NotModelled:
+            pass
+        return out
+
+    EqualComparisonSuggestion.get_replacements = get_replacements
     try:
         with glog, contextlib.redirect_stderr(io.StringIO()):
             with limit(seconds):
@@ -343,6 +378,7 @@ def run_evolution(spec: str, seed: int, settings: dict, generations: int, want: 
                     err = type(e).__name__
     finally:
         Evaluator.evaluate_individual = o_eval
+        EqualComparisonSuggestion.get_replacements = o_repl
     return grammar, constraints, list(seen.values()), sols, glog, err
 
 
@@ -357,13 +393,14 @@ def reevaluate(ctx: Ctx, grammar, trees: list, meta: dict) -> None:
                 ctx.run.count("reevaluated")
                 if units(val) != text_units(n):
                     kind = meta.get("kind", "?")
-                    cls = SIGNATURES.get((kind, 1))
+                    cls = EQ_REPAIR if (n.symbol.name(), tuple(text_units(n))) in (meta.get("assigned") or set()) else None
                     ctx.run.report(
                         f"C16/{cls}" if cls else f"C16/reevaluation-differs:{meta['origin']}:{kind}",
                         f"{meta['origin']} ({meta.get('name')}, {kind}): {n.symbol.name()} reads {str(n)!r} but its generator "
                         f"gives {val!r} on the recorded arguments {[str(s) for s in n.sources]}" + (f" [{cls}]" if cls else ""),
                         {"kind": "tree", "origin": meta["origin"], "spec": meta.get("spec"), "settings": meta.get("settings"),
                          "tree": gtree_json(t), "class": cls})
+                    ctx.run.count("invalid:" + (cls or "reevaluation-differs"))
             except NotModelled:
                 ctx.run.count("not_modelled")
             except Exception as e:  # noqa
@@ -393,7 +430,7 @@ def stage_evolution(ctx: Ctx, rng, n_runs: int, seconds: int) -> None:
         run.count("solutions:" + ("0" if not sols else "1+"))
         run.count("generator_calls", len(glog.entries))
         meta = {"spec": spec, "settings": dict(settings, seed=seed), "kind": kind, "name": name,
-                "regen_possible": bool(args)}
+                "assigned": set(glog.assigned)}
         sol_ids = {id(s) for s in sols}
         others = [t for t in inds if id(t) not in sol_ids]
         try:
